@@ -197,6 +197,45 @@ def run(ck: Check) -> int:
             sr.distinct = sr.evaluations // 3
         ck.search('is_magic-call-orders', s_magic)
 
+        def s_repeat(sr):
+            # the SAME call repeated in a warm process: equal, hash-equal matchers with the same regex lists, the same answers, and no exception
+            # that the first call did not raise — also when the pattern limit is reached exactly (added after seeded change C19k: compiled
+            # exclude= lists were memoised and the NODIR regex was appended to the cached list, one more at every repetition)
+            F, G = w.F, w.G
+            cases = [(G, ['*.txt', 'a*'], ['b*'], G.NODIR, 3), (G, ['*'], ['x', 'y'], G.NODIR | G.GLOBSTAR, 3), (G, ['**'], ['*/'], G.GLOBSTAR, 1000),
+                     (G, ['{a,b}*'], ['c*'], G.NODIR | G.BRACE, 3), (F, ['*.txt'], ['a*'], 0, 2), (F, ['a', 'b'], ['c|d'], F.SPLIT, 4),
+                     (G, [b'*.txt', b'a*'], [b'b*'], G.NODIR, 3), (G, ['*'], None, G.NODIR | G.NEGATE, 1), (G, ['*', '!b*'], None, G.NODIR | G.NEGATE, 2)]
+            names = ['a.txt', 'b.txt', 'ab', 'd/', 'x', 'c.txt', 'd/e.txt']
+            sr.note = (f'{len(cases)} calls (exclude= and inline exclusions, NODIR, BRACE, SPLIT, bytes; limit = exactly the number of patterns) made five times in a row '
+                       'without clearing any cache: compile() objects equal / hash-equal / same lists, globmatch / fnmatch answers and exceptions identical')
+            for mod, pats, ex, fl, lim in cases:
+                outs = []
+                for rep in range(5):
+                    sr.evaluations += 1
+                    try:
+                        kw = {} if ex is None else {'exclude': ex}
+                        m_ = mod.compile(pats, flags=fl, limit=lim, **kw)
+                        isb = isinstance(pats[0], bytes)
+                        ans = [bool(m_.match(n.encode() if isb else n)) for n in names]
+                        one = [bool((mod.globmatch if mod is G else mod.fnmatch)(n.encode() if isb else n, pats, flags=fl, limit=lim, **kw)) for n in names]
+                        outs.append(('ok', m_, hash(m_), len(m_._matcher._include), len(m_._matcher._exclude or ()), ans, one))
+                    except Exception as e:  # noqa: BLE001
+                        outs.append((type(e).__name__,))
+                first = outs[0]
+                for k_, o in enumerate(outs[1:], 2):
+                    same = (o[0] == first[0]) and (o[0] != 'ok' or (o[1] == first[1] and o[2] == first[2] and o[3:] == first[3:]))
+                    if not same:
+                        ck.report(Failing(f'{mod.__name__.split(".")[-1]}: the same compile / match call, repetition #{k_}, differs from the first one',
+                                          {'api': mod.__name__ + '.compile', 'patterns': [repr(x) for x in pats], 'exclude': ex and [repr(x) for x in ex], 'flags': fl, 'limit': lim,
+                                           'history': f'{k_} identical calls in a row'},
+                                          str(first[:1] + first[3:])[:200], str(o[:1] + o[3:])[:200]), None)
+                        sr.histogram['FAIL'] = sr.histogram.get('FAIL', 0) + 1
+                        break
+                else:
+                    sr.histogram['same'] = sr.histogram.get('same', 0) + 1
+            sr.distinct = len(cases)
+        ck.search('identical-calls-repeated', s_repeat)
+
         def s_obj(sr):
             sr.note = ('WcMatcher (fnmatch.compile / glob.compile) and the inner WcRegexp: equal and hash-equal when built twice (cold '
                        'cache in between), pickle / copy / deepcopy round trips equal with unchanged behaviour, setattr raises, reuse '
